@@ -656,6 +656,142 @@ def long_clauses(spec, names, report, disagree=None, timed=False):
     return s, base
 
 
+# ---- round-8 extension: LONG records at the function level (size- and position-conditioned code paths) ---------------------------
+def ftable(x, ep=False):
+    """sorted rows of count_cycles as float tuples (the values of the big stream are small dyadic numbers: exact)"""
+    from qats.fatigue.rainflow import count_cycles
+    c = np.asarray(count_cycles(x, endpoints=ep))
+    if c.ndim != 2 or c.shape[1] != 3:
+        return "shape %s" % (c.shape,)
+    return sorted(map(tuple, c.tolist()))
+
+
+def big_signal(p):
+    """c02.long_signal(p) (size, shape, seed, events at the ends and at / across multiples of 1000 / 1024 / 4096 / 10000 / 65536),
+    with a strict turning point as second and as last-but-one sample (so that the first and the last point flagged by
+    `find_reversals` are true turning points: known finding F8b is about plateaus there)"""
+    x = np.array(c02.long_signal(dict(p, scale=1.0, offset=0.0)), dtype=float)
+    if p.get("strict_ends", True):
+        x[:3] = [x[3] - 1.0, x[3] + 11.0, x[3] - 12.0]
+        x[-3:] = [x[-4] + 12.0, x[-4] - 11.0, x[-4] + 1.0]
+    return x
+
+
+def big_refine(p, x):
+    """x with repeated samples and in-between samples inserted at the listed positions (`refine`: [kind, pos, count]): the refined
+    record is longer (it crosses the next size threshold) and every later sample sits at a shifted position"""
+    parts, last = [], 0
+    for kind, pos, cnt in sorted(p.get("refine", ()), key=lambda r: r[1]):
+        pos = min(max(int(pos), 0), len(x) - 2)
+        if pos < last:
+            continue
+        parts.append(x[last:pos + 1])
+        if kind == "repeat":
+            parts.append(np.full(int(cnt), x[pos]))
+        else:                                   # in-between: quarter points towards the next sample (dyadic: exact)
+            parts.append(x[pos] + (x[pos + 1] - x[pos]) * np.array([0.25, 0.5, 0.5, 0.75, 1.0][:int(cnt)]))
+        last = pos + 1
+    parts.append(x[last:])
+    return np.concatenate(parts)
+
+
+def ftransform(tab, a, b):
+    return tab if isinstance(tab, str) else sorted((abs(a) * r, a * m + b, c) for r, m, c in tab)
+
+
+def big_clauses(p, report):
+    """affine / negation / refinement / recount clauses on one long record, functions on ndarray or list"""
+    from qats.signal import find_reversals
+    from qats.fatigue.rainflow import reversals
+    x = big_signal(p)
+    a, b = float(Fraction(p["a"])), float(Fraction(p["b"]))
+    as_list = p.get("as") == "list"
+    inp = dict(p, kind="big", head=[float(v) for v in x[:5]], tail=[float(v) for v in x[-5:]])
+
+    def give(v):
+        return [float(u) for u in v] if as_list else np.array(v)
+
+    def diff(e, g):
+        return _rows_diff(e, g) if isinstance(e, list) and isinstance(g, list) else (str(e)[:300], str(g)[:300])
+    nrows = None
+    for ep in p["eps"]:
+        base = call(ftable, give(x), ep)
+        if isinstance(base, str):
+            report("count_cycles of a long record must not raise", dict(inp, endpoints=ep), "table", base, "big-raises")
+            continue
+        nrows = len(base)
+        for aa, bb in ((a, b), (-1.0, 0.0)):
+            got = call(ftable, give(aa * x + bb), ep)
+            if got != ftransform(base, aa, bb):
+                report("count(a*x+b): ranges |a|*r, means a*m+b, same counts (negation mirrors the means) [long record]",
+                       dict(inp, endpoints=ep, a_used=aa, b_used=bb), *diff(ftransform(base, aa, bb), got), "big-affine")
+        x2 = big_refine(p, x)
+        got = call(ftable, give(x2), ep)
+        if got != base:
+            report("inserting repeated / in-between samples changes nothing [long record, refined to %d samples]" % len(x2),
+                   dict(inp, endpoints=ep), *diff(base, got), "big-refine")
+    base = call(ftable, give(x), False)
+    if isinstance(base, str):
+        return nrows
+    rv = call(lambda: [float(v) for v in reversals(give(x))])
+    if isinstance(rv, str):
+        report("reversals of a long record must not raise", inp, "turning points", rv, "big-raises")
+    elif len(rv) >= 2:
+        got = call(ftable, give(rv), True)
+        if got != base:
+            report("count_cycles(reversals(x), endpoints=True) == count_cycles(x) [long record]", inp, *diff(base, got),
+                   "big-recount-reversals")
+    fr = call(lambda: find_reversals(np.array(x))[0])
+    if isinstance(fr, str):
+        report("find_reversals of a long record must not raise", inp, "turning points", fr, "big-raises")
+    elif len(fr) >= 2 and p.get("strict_ends", True):
+        got = call(ftable, np.array(fr, dtype=float), True)
+        if got != base:
+            report("count_cycles(find_reversals(x)[0], endpoints=True) == count_cycles(x) [long record; its second and its "
+                   "last-but-one sample are strict turning points]", inp, *diff(base, got), "big-recount-find_reversals")
+        # the finder's points that are true turning points are all of the turning points
+        if not isinstance(rv, str):
+            keep = [float(v) for v in reversals([float(v) for v in fr], endpoints=True)]
+            if keep != rv:
+                k = next((i for i, (u, v) in enumerate(zip(keep, rv)) if u != v), min(len(keep), len(rv)))
+                report("the turning points among find_reversals(x)[0] are the turning points of x [long record]", inp,
+                       "%d points, from #%d: %s" % (len(rv), k, rv[k:k + 6]), "%d points, from #%d: %s" % (len(keep), k, keep[k:k + 6]),
+                       "big-recount-find_reversals")
+    return nrows
+
+
+def gen_big(prng, quick):
+    if quick:
+        sizes = [prng.choice(gp) for gp in c02.LONG_GROUPS]
+        shapes = [prng.choice(c02.LONG_SHAPES) for _ in sizes]
+        shapes[prng.randrange(3)] = "zigzag"
+        shapes[3] = prng.choice(["zigzag", "zigzag", "noise"])
+    else:
+        sizes = list(c02.LONG_SIZES) * 2
+        shapes = [c02.LONG_SHAPES[k % 4] for k in range(len(sizes))]
+        prng.shuffle(shapes)
+    for k, (n, shape) in enumerate(zip(sizes, shapes)):
+        bs = c02.long_boundaries(n)
+        near_end = [3, 4, n - 6, n - 5]
+        at_b = [b_ + d for b_ in bs for d in (-2, -1, 0, 1)] or near_end
+        ev = [["swing", prng.choice(near_end if k % 2 else at_b)], ["peak", prng.choice([b_ + d for b_ in bs for d in (-1, 0)] + [5])]]
+        for _ in range(prng.randint(1, 3)):
+            ev.append(["plateau", prng.choice([b_ + d for b_ in bs for d in (-1, 0, 1)] + [6, n - 7])])
+        for _ in range(prng.randint(0, 2)):
+            ev.append(["tie", prng.choice([b_ + d for b_ in bs for d in (-3, -2, -1, 0)] + [4, n - 9])])
+        prng.shuffle(ev)
+        # refinement: the record grows past the next threshold; insertions in the first / last samples and at / across boundaries
+        grow = next((t - n for t in (1000, 1024, 4096, 10000, 65536) if n < t <= n + 3), prng.randint(1, 5))
+        rf_ = [["repeat", prng.choice([0, 1, n - 2, n - 1] + [b_ - 1 for b_ in bs] + bs), grow + prng.randint(0, 2)]]
+        for _ in range(prng.randint(1, 4)):
+            rf_.append([prng.choice(["repeat", "between"]), prng.choice([0, 1, n - 3, n - 2] + [b_ + d for b_ in bs for d in (-2, -1, 0)]),
+                        prng.randint(1, 5)])
+        eps = [False, True] if n < 20000 or not quick else [prng.random() < 0.5]
+        yield dict(n=n, shape=shape, seed=prng.getrandbits(40), events=ev, refine=rf_, eps=eps,
+                   a=str(Fraction(prng.choice([2, 4, 1, 3, -2, 8]), prng.choice([1, 2, 4]))), b=str(prng.choice([0, 5, -3, 16, 4096])),
+                   **{"as": prng.choice(["ndarray", "ndarray", "list"])})
+
+
 def pow2(a):
     a = abs(Fraction(a))
     return a > 0 and a.numerator & (a.numerator - 1) == 0 and a.denominator & (a.denominator - 1) == 0
@@ -1217,8 +1353,11 @@ def run(chk):
     import random
     grng = random.Random("C03 time grids %d" % chk.seed)     # own seeded stream: the choices below leave chk.rng's sequence as it was
     cases, forced, extra_sp, cgrid = [], [], [], {}
-    corpus_plots, corpus_long = [], []
+    corpus_plots, corpus_long, corpus_big = [], [], []
     for c in core.load_corpus("C03"):
+        if c.get("kind") == "big":
+            corpus_big.append(c)
+            continue
         if c.get("kind") == "plot-multi":
             corpus_plots.append(c)
             continue
@@ -1429,7 +1568,8 @@ def run(chk):
             chk.nontriv(("plot-multi",) + tuple(pc[1]))
     # ---- long records (more than 1000 samples, also after a time window) with repeated samples at the ends -----------------
     lcases = [dict(c) for c in corpus_long]
-    lengths = ([1001, prng.randint(1002, 1100), prng.randint(1200, 2600)] if chk.quick else
+    lengths = ([1001, prng.randint(1002, 1100), prng.randint(1200, 2600), prng.choice([4095, 4096, 4097, 9999, 10000, 10001])]
+               if chk.quick else
                [1001, 1002, 1024, 1025, 2048, 4097, 10001] + [prng.randint(1001, 1100) for _ in range(8)]
                + [prng.randint(1100, 6000) for _ in range(16)] + [prng.randint(10000, 20000) for _ in range(2)]
                + [prng.randint(900, 1000) for _ in range(4)])
@@ -1461,6 +1601,21 @@ def run(chk):
             "<= 1000" if len(s) <= 1000 else "1001-1100" if len(s) <= 1100 else "> 1100", spec["start"], spec["end"]))
         if base and not isinstance(base, str):
             chk.nontriv(("long", spec["gen_seed"], spec["length"]))
+    # ---- long records at the function level: sizes around 1000 / 1024 / 4096 / 10000 and beyond 65536 -------------------------
+    brng = random.Random("C03 big records %d" % chk.seed)
+    bcases = [dict(c) for c in corpus_big] + list(gen_big(brng, chk.quick))
+    for p_ in bcases:
+        p_.pop("kind", None), p_.pop("note", None), p_.pop("head", None), p_.pop("tail", None)
+        chk.count("big record (functions)")
+        chk.dist("big record: n=%d %s" % (p_["n"], p_["shape"]))
+        try:
+            nrows = big_clauses(p_, rep)
+        except Exception as e:
+            nrows = None
+            rep("the clauses can be evaluated on a long record (well-formed results)", dict(p_, kind="big"), "no error",
+                "%s: %s" % (type(e).__name__, str(e)[:200]), "big-raises")
+        if nrows:
+            chk.nontriv(("big", p_["n"], p_["shape"], p_["seed"]))
     # ---- inexact unit conversions on generic float series free of range ties ----------------------------------------------
     for _ in range(600 if chk.quick else 3000):
         xs, a, b, t2 = gen_generic(rng)
@@ -1517,6 +1672,9 @@ def replay(rp):
         plot_multi_clauses(inp["call"], [frac(v) for v in inp["series"]], frac(inp["t0"]), frac(inp["dt"]),
                            [(frac(p), frac(q)) for p, q in inp["maps"]], [int(v) for v in inp["order"]],
                            dict((k, frac(v)) for k, v in inp["opts"].items()), report)
+        return done()
+    if kind == "big":
+        big_clauses({k: v for k, v in inp.items() if k not in ("kind", "head", "tail", "endpoints", "a_used", "b_used")}, report)
         return done()
     if kind == "long-record":
         long_clauses(inp["spec"], [inp["entry"]], report, timed=True,
